@@ -179,7 +179,7 @@ PROPS["C18"] = {
     "require_counters": {"quick": {"replies_checked": 3000, "requests_with_effect": 150, "requests_refused": 1000, "malformed_lines_survived": 19},
                          "thorough": {"replies_checked": 12000}},
     "rule": "request types are scraped at check time from the working tree (match arms of control/handlers/*.rs plus the literals of the role table and the debug-class "
-            "list) plus unknown/garbled names; x 8 credentials {none, wrong, admin token, pairing viewer/operator/engineer, expired, revoked} x 13 endpoint configs "
+            "list) plus unknown/garbled names; x 9 credentials {none, wrong, admin token, pairing viewer/operator/engineer, expired, revoked, revoked twin = a token sharing its per-second id with another one} x 13 endpoint configs "
             "{token set/unset x debug on/off x pairing present/absent x control mode} x param variants {plausible (reaches the handler's effect), none, generic fuzz}. "
             "Thorough enumerates the product completely; quick a shuffled part. distinct = (config, type, variant, credential); non-trivial = the request was "
             "answered with a parseable reply, i.e. reached the role decision",
@@ -201,13 +201,14 @@ PROPS["C19"] = {
     "quick": {"shards": 8, "budget_s": 15, "watchdog_s": 600},
     "thorough": {"shards": 16, "budget_s": 300, "watchdog_s": 3000},
     "floor": {"quick": 3000, "thorough": 20000},
-    "require_counters": {"quick": {"A_calls": 3000, "A_calls_that_changed_the_tree": 40, "B_histories_with_overlapping_writers": 300, "B_successful_writes": 10000, "B_conflicts": 5000},
+    "require_counters": {"quick": {"A_calls": 3000, "A_calls_that_changed_the_tree": 40, "B_histories_with_overlapping_writers": 300, "B_successful_writes": 10000, "B_conflicts": 5000, "B_bystander_operations": 20000},
                          "thorough": {"B_histories_with_overlapping_writers": 10000}},
     "rule": "A: 14 operations {list, tree, open, create file/dir, write, rename from/to, delete, search, format, diagnostics, symbols, workspace symbols} x ~57 path strings "
             "(.., absolute, ./, //, backslashes, hidden, through a directory symlink / file symlink / symlink cycle, NUL, unicode look-alikes, trailing dots/spaces, 4 kB long, "
             "percent-encoded, random compositions) x {editor, viewer, expired, bogus token, editor with write disabled}; enumerated completely in every tier. distinct = "
             "(op, path, session, write flag); non-trivial = the call returned (Ok or refusal) and both snapshots were compared. B: 2-8 editor sessions x 5-50 optimistic writes "
-            "with unique ids on 1-2 files, delay probability {0,10,50,100}% at the failpoint; distinct = sequence of (client, success?) ; non-trivial = >=2 clients had overlapping "
+            "with unique ids on 1-2 files (half of the histories on `pump.st` / `lib_io/x.st`), a third of the writes with the version the client already holds, delay probability "
+            "{0,10,50,100}% at the failpoint, plus a bystander editor that creates/deletes directories whose names are string prefixes of the tracked files and renames/lists unrelated entries; distinct = sequence of (client, success?) ; non-trivial = >=2 clients had overlapping "
             "calls on one file",
     "level_text": "Confinement is decided by diffing a snapshot of the whole sentinel tree (which never follows links) before/after every call, including refused calls, and by scanning "
                   "replies for text and names of outside and hidden files; only non-hidden paths under the project may change, and only for an editor session with writing enabled. "
